@@ -117,6 +117,7 @@ begin
     Resp.C1 = Req.Id
     Resp.C2 = Req.Id + 1
     cfail(Req.Fail2)
+    obs(slow(Req.Id), Resp.Token)
   }
   Resp.Out4 = Req.Id
   return Req.Id
@@ -346,6 +347,12 @@ func NewStorm(k *fw.Case, jitter bool) (*Storm, error) {
 		// k4 is ALSO the name of an object the pool was built with: requests that inject their own k4
 		// replace it for the time of the request; whatever is there afterwards, it is not their object
 		"k4": &Key{Id: apiKeyId},
+		// slow hands its argument back after 0.3 ms: a conc member that is still busy when a sibling has failed
+		// long ago; if the block did not wait for it, it resolves Resp.Token in whatever request has the instance then
+		"slow": func(x int64) int64 {
+			time.Sleep(300 * time.Microsecond)
+			return x
+		},
 		"cfail": func(b bool) {
 			if b {
 				panic("a conc member fails on purpose")
